@@ -19,6 +19,8 @@ def plan(tier, seed):
     # a rejected append may have opened new part files, never one that exists: part numbers above every number in use
     for h in ("h_find_max_part", "h_find_max_part_dirs", "h_find_max_part_order"):
         jobs.append(ch("C18", G, h, t, ["writer.find_max_part", "api.part_ids"]))
+    jobs.append(ch("C18", "vf/pyshim/h_labels.py", "h_type_refused_early", t,
+                   ["writer.find_type (up-front type check)", "writer.convert (late type check)"]))
     jobs.append(ch("C18", "vf/pyshim/h_labels.py", "h_label_refused_early", t,
                    ["util.get_column_metadata (up-front label check)", "writer.make_row_group (late label check)"]))
     jobs.append(ch("C18", "vf/pyshim/h_write.py", "h_write_append_options", t,
